@@ -26,6 +26,12 @@ def handleAuthGate (j : Json) : Json :=
   | "htpasswd" =>
     let file := (getArr j "lines").map asStr
     obj [("r", jStr (htpasswdLogin file (schemeOf (getS j "scheme")) (asOracle j) (getStr j "login") (getStr j "pw")))]
+  | "htpasswd_hist" =>
+    -- {"init":{"lines","size","mtime"}, "steps":[{"lines","size","mtime","login","pw"}]} → results
+    let i := j.getObjValD "init"
+    let c0 := HtCache.load ((getArr i "lines").map asStr) (getNat i "size") (getNat i "mtime")
+    let steps := (getArr j "steps").map (fun s => ((getArr s "lines").map asStr, getNat s "size", getNat s "mtime", getStr s "login", getStr s "pw"))
+    obj [("r", Json.arr ((cachedRun (schemeOf (getS j "scheme")) (asOracle j) c0 steps).map jStr).toArray)]
   | "gate" =>
     let cfg : Cfg := ⟨backendOf (getS j "backend"), getBool j "lc", getBool j "uc", getBool j "strip"⟩
     let header : AuthHeader := match getS j "header" with
